@@ -111,7 +111,7 @@ func c01CheckBatch(run *vlib.Run, cases []schemaCase) (map[int][]vlib.Violation,
 			out[i] = append(out[i], vlib.V(sig, "%s definition %s, document %s: "+format, append([]any{c.Format, d.Def, d.JSON}, args...)...))
 		}
 		if r.Panic != "" {
-			add("decode-panic:"+f, "the generated code panicked: %s", r.Panic)
+			add("decode-panic:"+f+nestedTag(c), "the generated code panicked: %s", r.Panic)
 			continue
 		}
 		if r.StdErr != "" {
@@ -120,7 +120,7 @@ func c01CheckBatch(run *vlib.Run, cases []schemaCase) (map[int][]vlib.Violation,
 		if !r.HasStrict {
 			add("no-strict-decoder:"+f, "the generated type has no UnmarshalJSONStrict")
 		} else if r.StrictErr != "" {
-			add("strict-decoder-rejects:"+f+":"+errClass(r.StrictErr), "UnmarshalJSONStrict fails: %s", r.StrictErr)
+			add("strict-decoder-rejects:"+f+":"+errClass(r.StrictErr)+nestedTag(c), "UnmarshalJSONStrict fails: %s", r.StrictErr)
 		}
 		if r.StdErr != "" {
 			continue
